@@ -68,7 +68,7 @@ def cases(ctx):
         configs = [c for i, c in enumerate(c for c in configs if c["size"] == 5 or (c["size"] == 1 and c["enc"] == "utf-8"))]
     for i, c in enumerate(configs):
         if ctx.mine(i):
-            yield {"base": c, "failpoints": True}
+            yield {"base": c, "failpoints": True, "deep": ctx.tier == "thorough"}
     ctx.exhaustive = True
 
 
@@ -333,7 +333,8 @@ def check(ctx, case):
         if case.get("failpoints"):
             ctx.notes.setdefault("line_events_sample", [list(x) for x in (ctl["lines"] or [])][:60])
         n_lines0 = len(ctl["lines0"] or []) if case.get("failpoints") else 0
-        n_lines0 = min(n_lines0, 60) if base["size"] == 40 else n_lines0  # the parse loop of a big file repeats the same lines
+        # the parse loop repeats the same lines for every parameter: the first events cover every distinct line
+        n_lines0 = min(n_lines0, 60 if case.get("deep") else 40)
         faults = enumerate_faults(base, ctl["snaps"]["n_props"], ctl["snaps"]["n_charts"], counted, n_lines, n_lines0)
         ctx.features["fault_points_enumerated"] += len(faults)
     for fault in faults:
